@@ -261,7 +261,7 @@ def h(t, part):
                                                ('single', lambda: worlds.decode_frames(ref.w.P, ref.w.frames('c%d' % c)),
                                                 lambda c_, i, d: ref.w.send('c%d' % c_, ref.w.P(packet.ACK, data=d, id=i)))):
                     for p in frames_of():
-                        if not isinstance(p, tuple) and p.packet_type == packet.EVENT and p.id is not None:
+                        if not isinstance(p, tuple) and p.packet_type in (packet.EVENT, packet.BINARY_EVENT) and p.id is not None:
                             acker(c, p.id, ['ack', p.data[0]] if tgt % 2 else [])
             if not delayed:
                 cl.settle()
